@@ -422,6 +422,22 @@ theorem C13_regress_decorator_legacy_race :
     (run [.spawn 0 false, .spawn 1 false, .decoNew 0 (7 : Nat) true, .decoNew 1 7 true]).owner 7 = some 0 := by
   decide
 
+/-- **`@task_unique` with the empty name, legacy subsystem – the code as it is now** (/repo dc7ca82): whatever the name,
+the guarded first segment is the claim. -/
+theorem C13_decorator_legacy_any_name (s : St κ) (t : Task) (k : κ) (km nonEmpty : Bool) :
+    decoLegacyNamed current s t k km nonEmpty = uniqueStep s t k km := by
+  simp [decoLegacyNamed, decoLegacyStep, current]
+
+/-- **Regression witness (C13-F3, fixed by /repo dc7ca82)**: with the truthiness guard two runs of a function decorated
+`@task_unique("")` (key 7 here) both stayed alive – neither claimed; now the second displaces the first. -/
+theorem C13_regress_decorator_legacy_empty_name :
+    let s0 : St Nat := run [.spawn 0 false, .spawn 1 false]
+    let go := fun (cfg : Cfg) => decoLegacyNamed cfg (decoLegacyNamed cfg s0 0 7 false false) 1 7 false false
+    ((go preFix).owner 7 = none ∧ (go preFix).reaperQ = []) ∧
+    ((go current).owner 7 = some 1 ∧ (go current).reaperQ = [0]) ∧
+    (decoLegacyNamed preFix s0 0 7 false true).owner 7 = some 0 := by
+  decide
+
 /-- **The reaper finishes the job.**  Under the runtime assumption that a cancelled task ends at its next suspension
 point (`reapCycle` = deliver, then that task's `finally`), once the reaper has worked through its queue the queue is
 empty and every task that was on it has ended – from any state: the reaper (/repo 32185a9) never waits. -/
